@@ -196,6 +196,8 @@ def run(ck: Check):
     cli_text_sets(ck, judge_sets)
     collapse_keeps_sets(ck)
     sets_changed_between_loads(ck)
+    from envmatrix import run_matrix
+    run_matrix(ck, ("C15",))
     model = run_model(cases, shards=8)
     from coqlit import xcheck
     xcheck(ck, cases, model)
@@ -321,6 +323,27 @@ def sets_changed_between_loads(ck):
     import lithium.testcases as tcs
     from splitx import MEM
     data = b"a<b>,c;d]e}f:g\n(h),i"
+    # several objects alive at once, each with its own sets (or the defaults), configured in every order: an object splits
+    # by ITS sets
+    import itertools as _it
+    plans = [(None, None), (b">", b","), (b"(", b")"), (None, None)]
+    for order in _it.permutations(range(4)):
+        objs = [tcs.TestcaseSymbol() for _ in plans]
+        for i in order:
+            if plans[i][0] is not None:
+                objs[i].set_cut_chars(*plans[i])
+        for i in reversed(order):
+            o = objs[i].copy() if i % 2 else objs[i]
+            o.parts, o.reducible = [], []
+            o.split_parts(data)
+            b_, a_ = plans[i] if plans[i][0] is not None else (b"]}:", b"?=;{[\n")
+            err = symbol_ok(o.parts, data, b_, a_)
+            ck.count("live-objects")
+            ck.nontrivial(("live-objects", order, i))
+            if err:
+                ck.violation(f"four symbol testcases alive at once (sets {plans}, configured in the order {order}): object {i} with "
+                             f"sets {plans[i]} splits {data!r} into {o.parts!r} ({err[:160]})", {"plans": str(plans), "order": list(order), "object": i})
+                return
     for first in SETS[:6]:
         for second in SETS[:8]:
             if second[0] is None or set(second[0]) & set(second[1]):
